@@ -6,11 +6,11 @@ import re
 def unit_mocklemma():
     return US.build(with_checksig=True) + '\n#include "h_mocklemma.h"\n'
 def lemma(name, op, n, k=40):
-    return Query(name, 'harness', unit_mocklemma, 'h_mocklemma', defines=[f'H_OP={op:#x}', f'H_N={n}', f'VERIF_STACK_W={n}', f'VERIF_ITEM_CAP={k}', 'VERIF_SCRIPT_CAP=24'], unwind=max(k + 2, 34), timeout=3000, object_bits=12,
+    return Query(name, 'harness', unit_mocklemma, 'h_mocklemma', defines=[f'H_OP={op:#x}', f'H_N={n}', f'VERIF_STACK_W={n}', f'VERIF_ITEM_CAP={k}', 'VERIF_SCRIPT_CAP=24'], unwind=max(k + 2, 34), timeout=3000, object_bits=12, backend='kissat',
                  bounded=f'element storage {k} bytes; one listed pair', functions=['harness/spec_sig.h: spec_sig_op (lemma over the specification)'])
 QUERIES = [lemma('mock_lemma_checksig', 0xac, 2), lemma('mock_lemma_checksigverify', 0xad, 2), lemma('mock_lemma_checksigadd', 0xba, 3)]
 # code == spec for every mock configuration (the mock table is symbolic in all C02 signature queries): re-run the single-signature ones and two multisig cases
-QUERIES += [q for q in C02.QUERIES if q.tier == 'quick' and re.match(r'sig_(checksig_pre|checksig_tapscript|checksig_taproot|checksigverify_pre|checksigadd_tapscript|multisig_1of1|multisig_2of1)$', q.name)]
+QUERIES += [q for q in C02.QUERIES if q.tier == 'quick' and re.match(r'sig_(checksig_pre|checksig_tapscript|checksig_taproot|checksigverify_pre|checksigadd_tapscript|multisig_1of1)$', q.name)]
 META = {'level': 'proof', 'trusted_base': TRUSTED + ['stubs/step_env_sig.h oracles'],
  'assumptions': ASSUME_COMMON + [
    "claimed: the opcode half; the pair-list parser Instance::parse_pretend_valid_expr (strndup / Value parsing) is not applicable",
